@@ -8,7 +8,7 @@ COMMON = 'Trusted: TLC, the recording wrapper (hook H1) and driver, the prober (
 CLAIMED = {
  "C16": dict(
     category="model_checking",
-    text="TLC checks the LockManager specification (transcribed from lock_manager.go, one action per critical section) exhaustively for 3 transactions x 2 rows (thorough: 4x2, 3x3) against the compatibility matrix stated independently (ReplyRight, DeniedUnchanged, ShrinkOnlyAtEnd, GrantInstalls, Compat, Agree); every edge of the TLC state graph is then performed on a real LockManager/TransactionManager and the recorded results and lock-table projection are validated by TLC; goroutine-concurrent runs sequenced under the lock-manager mutex are validated against the same spec.",
+    text="TLC checks the LockManager specification (transcribed from lock_manager.go, one action per critical section) exhaustively for 3 transactions x 2 rows (thorough: 4x2, 3x3) against the compatibility matrix stated independently (ReplyRight, DeniedUnchanged, ShrinkOnlyAtEnd, GrantInstalls, Compat, Agree); the invariants Compat / Agree and the action properties ReplyRight / DeniedUnchanged are in addition proved with TLAPS for any finite set of transactions and any set of rows (LockManagerProofs.tla, 98 obligations); every edge of the TLC state graph is then performed on a real LockManager/TransactionManager and the recorded results and lock-table projection are validated by TLC; goroutine-concurrent runs sequenced under the lock-manager mutex are validated against the same spec.",
     design_ref="DESIGN.md section 5 C16",
     note="Trusted: TLC, the recording driver (harness/cmd/vdrive/lock.go), hook H3 ordering under lockManager.mutex. Exhaustive only within the model bounds; concurrency sampled.",
     technique="TLA+ spec + TLC exhaustive check; state-graph-guided replay on the real lock manager; TLC trace validation"),
